@@ -1,16 +1,41 @@
 #!/bin/sh
-# tools/integrate.sh <name>: merge builder branch wt-<name> into /verif main and
-# cherry-pick its repo commits (hooks / fixes) onto /repo main.
-set -e
+# tools/integrate.sh <name>: merge builder branch wt-<name> into /verif main
+# (auto-resolving MANIFEST.json and known_findings.json) and cherry-pick its
+# repo commits (hooks / fixes) onto /repo main.
 n="$1"
+cd /verif || exit 2
 echo "== /verif: merging wt-$n"
-git -C /verif merge --no-ff -m "integrate wt-$n" "wt-$n"
+git merge --no-ff --no-commit "wt-$n" >/dev/null 2>&1
+for f in $(git diff --name-only --diff-filter=U); do
+  case "$f" in
+    MANIFEST.json) git checkout --ours -- MANIFEST.json; git add MANIFEST.json;;
+    known_findings.json|harness/Cargo.lock)
+      if [ "$f" = known_findings.json ]; then
+        git show :2:known_findings.json > /tmp/kf_ours.json; git show :3:known_findings.json > /tmp/kf_theirs.json
+        python3 - <<'PY'
+import json
+a=json.load(open('/tmp/kf_ours.json')); b=json.load(open('/tmp/kf_theirs.json'))
+ids={f['id'] for f in a['findings']}
+for f in b['findings']:
+    if f['id'] not in ids: a['findings'].append(f)
+json.dump(a,open('/verif/known_findings.json','w'),indent=1,ensure_ascii=False)
+PY
+        git add known_findings.json
+      else
+        git checkout --theirs -- "$f"; git add "$f"
+      fi;;
+    *) echo "   UNRESOLVED CONFLICT in $f"; UNRES=1;;
+  esac
+done
+if [ -n "$UNRES" ]; then echo "resolve, then git commit"; exit 1; fi
+python3 tools/gen_manifest.py >/dev/null; git add MANIFEST.json
+git commit -qm "integrate wt-$n" || true
 echo "== /repo: commits on wt-$n not on main"
 for c in $(git -C /repo log --reverse --format=%H "main..wt-$n"); do
   git -C /repo log -1 --format='%h %s' "$c"
-  if ! git -C /repo cherry-pick -x "$c" >/dev/null 2>&1; then
-    if git -C /repo diff --cached --quiet && git -C /repo diff --quiet; then
-      echo "   (empty after cherry-pick, skipping)"; git -C /repo cherry-pick --skip || true
+  if ! git -C /repo cherry-pick "$c" >/dev/null 2>&1; then
+    if git -C /repo diff --quiet && git -C /repo diff --cached --quiet; then
+      echo "   (empty, skipping)"; git -C /repo cherry-pick --skip >/dev/null 2>&1 || true
     else
       echo "   CONFLICT cherry-picking $c — resolve in /repo, then 'git cherry-pick --continue'"; exit 1
     fi
